@@ -317,7 +317,7 @@ namespace Pistache::Tcp
 
                 if (buffer.isRaw())
                 {
-                    auto raw        = buffer.raw();
+                    const auto& raw = buffer.raw();
                     const auto* ptr = raw.data().c_str() + totalWritten;
                     bytesWritten    = sendRawBuffer(fd, ptr, len, flags);
                 }
@@ -341,12 +341,21 @@ namespace Pistache::Tcp
                     if (errno == EAGAIN || errno == EWOULDBLOCK)
                     {
 
-                        auto bufferHolder = buffer.detach(totalWritten);
+                        if (totalWritten == static_cast<size_t>(buffer.offset()))
+                        {
+                            // nothing was taken (a flush behind a blocked write): the entry
+                            // stays as it is, what remains of it is not copied again
+                            entry.deferred = std::move(deferred);
+                        }
+                        else
+                        {
+                            auto bufferHolder = buffer.detach(totalWritten);
 
-                        // pop_front kills buffer - so we cannot continue loop or use buffer
-                        // after this point
-                        wq.pop_front();
-                        wq.push_front(WriteEntry(std::move(deferred), bufferHolder, fd, flags));
+                            // pop_front kills buffer - so we cannot continue loop or use
+                            // buffer after this point
+                            wq.pop_front();
+                            wq.push_front(WriteEntry(std::move(deferred), std::move(bufferHolder), fd, flags));
+                        }
                         reactor()->modifyFd(key(), fd, NotifyOn::Read | NotifyOn::Write,
                                             Polling::Mode::Edge);
                         // nothing more can be written now: go back to the event loop and
